@@ -1,10 +1,14 @@
 #!/usr/bin/env python3
 """Confirm an independently written broken variant and run checks against it.
 
-  tools/mutant.py <mutant-dir> <property> [--checks C04,C17] [--budget 75] [--no-confirm]
+  tools/mutant.py <mutant-dir> <property> [--checks C04,C17] [--budget 75] [--no-confirm] [--no-regtest] [--seeds 1,2]
+                  [--save <id>]
 
-<mutant-dir> holds patch.diff and demo.sh.  Works in a scratch worktree of /repo (removed afterwards);
-/repo itself is never touched.  Prints a JSON summary on the last line.
+<mutant-dir> holds patch.diff, demo.sh (takes the path of an mlr binary; exit 0 = property held) and notes.md.
+Works in a scratch worktree of /repo (tools/mkwt.sh; removed afterwards); /repo itself is never touched.
+Confirmation = patch applies, builds, unit tests pass, regression corpus passes, demo exits 0 on the clean binary and
+non-zero on the variant.  Then runs `./check <C> quick` with VERIF_REPO=<worktree> (evidence goes to a scratch dir).
+With --save, writes /verif/seeded/<id>/ (patch.diff, demo.sh, notes.md, meta.json).  Prints a JSON summary on the last line.
 """
 import json
 import os
@@ -14,9 +18,10 @@ import subprocess
 import sys
 import time
 
-PARSER = "/tmp/millerparser/parser.go"
-ENV = dict(os.environ, GOFLAGS="-mod=mod", GOPROXY="off", GOSUMDB="off", GOTOOLCHAIN="local", GOCACHE="/verif/build/gocache")
+ENV = dict(os.environ, GOFLAGS="-mod=mod", GOPROXY="off", GOSUMDB="off", GOTOOLCHAIN="local")
 GO = "/opt/veriftools/go1.26.8/bin/go"
+HERE = os.path.dirname(os.path.abspath(__file__))
+CLEAN = "/tmp/wt/clean"
 
 
 def sh(cmd, cwd=None, timeout=3600, env=None):
@@ -24,18 +29,22 @@ def sh(cmd, cwd=None, timeout=3600, env=None):
     return p.returncode, p.stdout
 
 
-def test_set(wt):
-    rc, out = sh([GO, "test", "-vet=off", "-count=1", "./pkg/..."], cwd=wt)
-    return sorted(set(re.findall(r"^(ok|FAIL)\s+(\S+)", out, re.M)))
+def unit_tests(wt):
+    rc, out = sh([GO, "test", "-vet=off", "-count=1", "./pkg/...", "./cmd/mlr/..."], cwd=wt)
+    return sorted(set(re.findall(r"^(ok|FAIL)\s+(\S+)", out, re.M))), out
 
 
-def build(wt, out):
-    ov = wt + "-ov.json"
-    with open(ov, "w") as f:
-        json.dump({"Replace": {wt + "/pkg/parsing/parser/parser.go": PARSER}}, f)
-    rc, o = sh([GO, "build", "-overlay", ov, "-o", out, "./cmd/mlr"], cwd=wt)
-    os.remove(ov)
-    return rc == 0, o
+def ensure_clean():
+    head = sh("git -C /repo rev-parse HEAD")[1].strip()
+    if os.path.exists(CLEAN + "/.head") and open(CLEAN + "/.head").read() == head and os.path.exists(CLEAN + "/mlr"):
+        return
+    sh([HERE + "/mkwt.sh", "clean"])
+    rc, o = sh([GO, "build", "-o", "mlr", "./cmd/mlr"], cwd=CLEAN)
+    if rc != 0:
+        raise SystemExit("clean build failed: " + o[-800:])
+    base, _ = unit_tests(CLEAN)
+    json.dump(base, open(CLEAN + "/.tests.json", "w"))
+    open(CLEAN + "/.head", "w").write(head)
 
 
 def main():
@@ -44,6 +53,9 @@ def main():
     checks = [prop]
     budget = "75"
     confirm = True
+    regtest = True
+    seeds = ["1"]
+    save = None
     a = sys.argv[3:]
     while a:
         if a[0] == "--checks":
@@ -52,22 +64,28 @@ def main():
         elif a[0] == "--budget":
             budget = a[1]
             a = a[2:]
+        elif a[0] == "--seeds":
+            seeds = a[1].split(",")
+            a = a[2:]
+        elif a[0] == "--save":
+            save = a[1]
+            a = a[2:]
         elif a[0] == "--no-confirm":
             confirm = False
             a = a[1:]
+        elif a[0] == "--no-regtest":
+            regtest = False
+            a = a[1:]
         else:
             a = a[1:]
-    tag = (os.path.basename(os.path.dirname(d)) + "-" + os.path.basename(d)).replace("-out", "")
-    wt = "/tmp/mw/" + tag
-    clean = "/tmp/mw/clean"
-    os.makedirs("/tmp/mw", exist_ok=True)
+    tag = "x-" + os.path.basename(d)
+    wt = "/tmp/wt/" + tag
     res = {"mutant": d, "property": prop}
-    sh("git -C /repo worktree remove --force %s; git -C /repo worktree prune" % wt)
-    shutil.rmtree(wt, ignore_errors=True)
-    rc, o = sh("git -C /repo worktree add -f --detach %s HEAD" % wt)
-    rc, o = sh(["git", "apply", "--3way", os.path.join(d, "patch.diff")], cwd=wt)
-    if rc != 0:
-        rc, o = sh(["git", "apply", os.path.join(d, "patch.diff")], cwd=wt)
+    if not os.path.exists("/tmp/millerparser/parser.go"):
+        raise SystemExit("need /tmp/millerparser/parser.go (cp /verif/build/gen/parser-*.go there)")
+    ensure_clean()
+    sh([HERE + "/mkwt.sh", tag])
+    rc, o = sh(["git", "apply", os.path.join(d, "patch.diff")], cwd=wt)
     res["applies"] = rc == 0
     if rc != 0:
         res["apply_error"] = o[-500:]
@@ -76,21 +94,20 @@ def main():
         return
     try:
         if confirm:
-            head = sh("git -C /repo rev-parse HEAD")[1].strip()
-            if not os.path.exists(clean + "/.head") or open(clean + "/.head").read() != head:
-                sh("git -C /repo worktree remove --force %s; git -C /repo worktree prune" % clean)
-                shutil.rmtree(clean, ignore_errors=True)
-                sh("git -C /repo worktree add -f --detach %s HEAD" % clean)
-                ok, o = build(clean, clean + "/mlr")
-                base = test_set(clean)
-                json.dump(base, open(clean + "/.tests.json", "w"))
-                open(clean + "/.head", "w").write(head)
-            base = [tuple(x) for x in json.load(open(clean + "/.tests.json"))]
-            ok, o = build(wt, wt + "/mlr")
-            res["builds"] = ok
-            if not ok:
+            base = [tuple(x) for x in json.load(open(CLEAN + "/.tests.json"))]
+            rc, o = sh([GO, "build", "-o", "mlr", "./cmd/mlr"], cwd=wt)
+            res["builds"] = rc == 0
+            if rc != 0:
                 res["build_error"] = o[-800:]
-            res["tests_same"] = test_set(wt) == base
+            got, out = unit_tests(wt)
+            res["unit_tests_same"] = got == base and not any(x[0] == "FAIL" for x in got)
+            if not res["unit_tests_same"]:
+                res["unit_tests_out"] = out[-800:]
+            if regtest and res["builds"]:
+                rc, o = sh(["./mlr", "regtest", "test/cases"], cwd=wt, timeout=1800)
+                res["regtest_pass"] = "PASS overall" in o
+                if not res["regtest_pass"]:
+                    res["regtest_tail"] = o[-600:]
             demo = os.path.join(d, "demo.sh")
             t0 = time.time()
             try:
@@ -98,32 +115,58 @@ def main():
             except subprocess.TimeoutExpired:
                 rcm, om = 124, "timeout"
             try:
-                rcc, oc = sh(["bash", demo, clean + "/mlr"], cwd=d, timeout=900, env=dict(os.environ))
+                rcc, oc = sh(["bash", demo, CLEAN + "/mlr"], cwd=d, timeout=900, env=dict(os.environ))
             except subprocess.TimeoutExpired:
                 rcc, oc = 124, "timeout"
-            res["demo_mutant_rc"] = rcm
+            res["demo_variant_rc"] = rcm
             res["demo_clean_rc"] = rcc
+            res["demo_variant_tail"] = om[-300:]
             res["demo_s"] = round(time.time() - t0, 1)
-            res["confirmed"] = bool(res["builds"] and res["tests_same"] and rcm not in (0, 77) and rcc == 0)
-            for f in ("mlr",):
-                try:
-                    os.remove(os.path.join(wt, f))
-                except OSError:
-                    pass
+            res["confirmed"] = bool(res["builds"] and res["unit_tests_same"] and res.get("regtest_pass", True) and rcm not in (0, 77) and rcc == 0)
+            try:
+                os.remove(os.path.join(wt, "mlr"))
+            except OSError:
+                pass
         res["checks"] = {}
         for c in checks:
-            outdir = "/tmp/mw/out-%s-%s" % (tag, c)
-            shutil.rmtree(outdir, ignore_errors=True)
-            env = dict(os.environ, VERIF_REPO=wt, VERIF_OUT_DIR=outdir, VERIF_BUDGET=budget, VERIF_SEED=os.environ.get("VERIF_SEED", "1"))
-            t0 = time.time()
-            rc, o = sh(["/verif/check", c, "quick"], cwd="/verif", env=env, timeout=7200)
-            viol = re.findall(r"^VIOLATION .*$\n^  class=(\S+)", o, re.M)
-            res["checks"][c] = {"rc": rc, "classes": viol, "wall_s": round(time.time() - t0, 1), "tail": o.strip().split("\n")[-1][:200]}
-            if rc == 2:
-                res["checks"][c]["error"] = o[-1500:]
+            for seed in seeds:
+                outdir = "/tmp/mw-out/%s-%s-%s" % (tag, c, seed)
+                shutil.rmtree(outdir, ignore_errors=True)
+                env = dict(os.environ, VERIF_REPO=wt, VERIF_OUT_DIR=outdir, VERIF_BUDGET=budget, VERIF_SEED=seed)
+                t0 = time.time()
+                rc, o = sh(["/verif/check", c, "quick"], cwd="/verif", env=env, timeout=7200)
+                viol = re.findall(r"^VIOLATION .*$\n^  class=(\S+)", o, re.M)
+                key = c if len(seeds) == 1 else "%s@%s" % (c, seed)
+                res["checks"][key] = {"rc": rc, "classes": viol, "wall_s": round(time.time() - t0, 1), "tail": o.strip().split("\n")[-1][:200]}
+                m = re.search(r"^  class=\S+ detail=(.*)$", o, re.M)
+                if m:
+                    res["checks"][key]["detail"] = m.group(1)[:600]
+                if rc == 2:
+                    res["checks"][key]["error"] = o[-1500:]
+                shutil.rmtree(outdir, ignore_errors=True)
     finally:
         sh("git -C /repo worktree remove --force %s; git -C /repo worktree prune" % wt)
         shutil.rmtree(wt, ignore_errors=True)
+    if save:
+        sd = os.path.join("/verif/seeded", save)
+        os.makedirs(sd, exist_ok=True)
+        for f in ("patch.diff", "demo.sh", "notes.md"):
+            if os.path.exists(os.path.join(d, f)):
+                shutil.copy(os.path.join(d, f), os.path.join(sd, f))
+        for f in os.listdir(d):
+            if f.endswith("_test.go") or f.endswith(".py"):
+                shutil.copy(os.path.join(d, f), os.path.join(sd, f))
+        meta = {"id": save, "breaks_property": prop, "repo_commit": sh("git -C /repo rev-parse HEAD")[1].strip(),
+                "confirmation": {k: res.get(k) for k in ("applies", "builds", "unit_tests_same", "regtest_pass", "demo_clean_rc", "demo_variant_rc", "confirmed")},
+                "what_ran": "tools/mutant.py: git apply in a scratch worktree, go1.26.8 build, go test ./pkg/... ./cmd/mlr/..., mlr regtest test/cases, demo.sh on clean and variant binaries, then ./check <C> quick with VERIF_REPO=<worktree>",
+                "checks": res["checks"]}
+        mp = os.path.join(sd, "meta.json")
+        if os.path.exists(mp):
+            old = json.load(open(mp))
+            for k in ("needs_to_manifest", "summary", "history"):
+                if k in old:
+                    meta[k] = old[k]
+        json.dump(meta, open(mp, "w"), indent=1)
     print(json.dumps(res))
 
 
